@@ -1294,10 +1294,15 @@ func (p *parser) parseBlock(block text.BlockReader, parent ast.Node, pc Context)
 		} else {
 			trimmed := diff.TrimRightSpace(source)
 			if trimmed.IsEmpty() {
-				// the line's trailing spaces may already have been flushed into the previous text
+				// the line's trailing spaces may already have been flushed into the previous text:
+				// that text ends the line, so it is trimmed and carries the line break
 				if last, ok := parent.LastChild().(*ast.Text); ok && last.Segment.Stop == diff.Start &&
 					!last.SoftLineBreak() && !last.HardLineBreak() && !last.IsRaw() {
 					last.Segment = last.Segment.TrimRightSpace(source)
+					last.SetSoftLineBreak(lineBreakFlags&lineBreakSoft != 0)
+					last.SetHardLineBreak(lineBreakFlags&lineBreakHard != 0)
+					block.AdvanceLine()
+					continue
 				}
 			}
 			text = ast.NewTextSegment(trimmed)
